@@ -379,7 +379,7 @@ func TestVerif_C31(t *testing.T) {
 	depth := r.Pick(3, 4)
 	var rc c31case
 	replay := r.ReplayCase(&rc) && rc.N != 0
-	for wi, n := range []uint32{4, 7} {
+	for wi, n := range []uint32{4, 7, 5, 8} { // 5 and 8 are sizes that are not of the form 3C+1
 		if replay && rc.N != n {
 			continue
 		}
@@ -403,10 +403,10 @@ func TestVerif_C31(t *testing.T) {
 			labels = append(labels, m.label)
 		}
 		d := depth
-		if n == 7 && r.Quick() {
+		if n >= 7 && r.Quick() {
 			d = 2
 		}
-		if n == 7 && r.Thorough() {
+		if n >= 7 && r.Thorough() {
 			d = 3
 		}
 		seenKey := map[string]bool{}
